@@ -11,8 +11,8 @@ open OdxVerif.Bits OdxVerif.OdxM
    Proved here: the instance where the parameters of the request / response / structure are *items* (`KItem`):
    components of the nested tier that do not touch the key dictionaries, LENGTH-KEY parameters and PARAM-LENGTH-INFO-TYPE
    users.  `Comps.values (KItems.comps its)` is `v`, `(Comps.pair (KItems.comps its)).val` is `complete ps v trig` (the keys
-   with the bit lengths).  Still missing relative to the full statement (for this construct): keys behind a compu method
-   other than IDENTICAL or with a signed / BCD coded type, PARAM-LENGTH-INFO-TYPE objects of ZERO bits of a numeric type
+   with the bit lengths).  Still missing relative to the full statement (for this construct): keys behind a TEXTTABLE / other
+   compu method or with a signed / BCD coded type, PARAM-LENGTH-INFO-TYPE objects of ZERO bits of a numeric type
    (A_UINT32 value 0 with the key omitted; the empty byte field / string is covered), users that refer to a key of an
    ENCLOSING structure, key structures as items of fields (the dictionaries are global to the PDU in the model as in
    odxtools: every item would have to carry the same lengths), key structures with BYTE-SIZE, and "consumes the whole PDU". -/
@@ -27,11 +27,15 @@ open OdxVerif.Bits OdxVerif.OdxM
       (b) `Comp.kstruct_kok`: a VALUE parameter typed by a STRUCTURE whose parameters are again such items with LENGTH-KEYs of
       their own (`Comp.kstruct name bp its'`, satisfying the hypotheses of this theorem for the same `W`) — to any depth;
       `touched` = the key names inside;
-    * **LENGTH-KEY parameters** (`KItem.key o v supplied`) over an `A_UINT32` standard-length DOP of 1 … 64 bits with the
-      identical compu method, at ANY byte position (explicit or behind its predecessor) and ANY bit position, either byte
-      order; `v` is the key's final value, which the key can represent (`o.inRange (.int v)`: `0 ≤ v < 2^BIT-LENGTH` —
-      the strict encoder rejects everything else); `supplied`: the caller specifies the key (then with the value `v`) or
-      omits it;
+    * **LENGTH-KEY parameters** (`KItem.key kd o v i supplied`) whose DOP `kd` occupies an `A_UINT32` standard-length object `o`
+      of 1 … 64 bits at ANY byte position (explicit or behind its predecessor) and ANY bit position, either byte order
+      (`KeyDop kd o v i`, `Proofs/CompKeyLeaves.lean`): `v` is the key's final value = the bit length, `i` the coded value
+      that goes on the wire, which the object can hold (`0 ≤ i < 2^BIT-LENGTH` — the strict encoder rejects everything
+      else).  Two instances: `KeyDop.identical` (IDENTICAL compu method, `i = v`) and `KeyDop.linear` (`Proofs/CompKeyLinear.lean`:
+      a LINEAR compu method with integer coefficients — the usual key that counts BYTES, `v = 8·i` — where the checks of
+      `encode_placeholder_into_pdu` and of fix 069655f in `encode_value_into_pdu` ("the length key is able to represent it")
+      pass: `validP v`, `p2i v = i`, `validI i`, `i2p i = v` and the exactness guards, all decided by evaluation);
+      `supplied`: the caller specifies the key (then with the value `v`) or omits it;
     * **VALUE parameters over a PARAM-LENGTH-INFO-TYPE DOP**, identical compu method:
       `KItem.user u` — `A_BYTEFIELD` or a string type without BASE-TYPE-ENCODING, byte aligned, of ANY length incl. zero,
       whose payload `u.raw` is what the codec puts on the wire for the value `u.v` (`Payload`) and whose bit length is what
